@@ -422,3 +422,74 @@ COMMON_TRUSTED = [
     "hand-written Lean model of the Rust code; tied to /repo only by this run's differential correspondence (runner linked against /repo/core and /repo/lib, rebuilt from the working tree)",
     "the correspondence machinery itself: harness/runner (Rust), tools/*.py (generators, canonicalisation, comparison)",
 ]
+
+
+# ----------------------------------------------------------------------------- the real binary (L3)
+
+import tempfile
+
+
+class Scratch:
+    """a scratch directory under build/scratch, removed on exit"""
+
+    def __enter__(self):
+        base = os.path.join(BUILD, "scratch")
+        os.makedirs(base, exist_ok=True)
+        self.dir = tempfile.mkdtemp(prefix="t", dir=base)
+        return self
+
+    def __exit__(self, *a):
+        shutil.rmtree(self.dir, ignore_errors=True)
+
+    def write(self, rel, text):
+        p = os.path.join(self.dir, rel)
+        os.makedirs(os.path.dirname(p), exist_ok=True)
+        with open(p, "w", encoding="utf-8", newline="") as f:
+            f.write(text)
+        return p
+
+    def path(self, rel):
+        return os.path.join(self.dir, rel)
+
+
+def run_cli(args, cwd, env=None, timeout=30):
+    """run the rebuilt typeshare binary; returns dict(rc, out, err, timed_out)"""
+    e = dict(ENV)
+    e["RUST_LOG"] = "info"
+    e.pop("RUST_BACKTRACE", None)
+    if env:
+        e.update(env)
+    try:
+        p = subprocess.run([CLI_BIN] + list(args), cwd=cwd, env=e, stdout=subprocess.PIPE, stderr=subprocess.PIPE,
+                           text=True, timeout=timeout, errors="replace")
+        return dict(rc=p.returncode, out=p.stdout, err=p.stderr, timed_out=False)
+    except subprocess.TimeoutExpired as ex:
+        return dict(rc=None, out=(ex.stdout or b"").decode("utf-8", "replace") if isinstance(ex.stdout, bytes) else (ex.stdout or ""),
+                    err=(ex.stderr or b"").decode("utf-8", "replace") if isinstance(ex.stderr, bytes) else (ex.stderr or ""),
+                    timed_out=True)
+
+
+def snapshot(root):
+    """{relative path: (bytes, mtime_ns)} of every file under root"""
+    out = {}
+    for d, _, files in os.walk(root):
+        for f in files:
+            p = os.path.join(d, f)
+            st = os.stat(p)
+            out[os.path.relpath(p, root)] = (open(p, "rb").read(), st.st_mtime_ns)
+    return out
+
+
+LANGS = ["typescript", "kotlin", "swift", "scala", "go", "python"]
+EXT = {"typescript": "ts", "kotlin": "kt", "swift": "swift", "scala": "scala", "go": "go", "python": "py"}
+
+
+def lang_args(lang):
+    """minimal extra arguments a language needs to run at all"""
+    if lang == "go":
+        return ["--go-package", "proto"]
+    if lang == "scala":
+        return ["--scala-package", "com.example"]
+    if lang == "kotlin":
+        return ["--java-package", "com.example"]
+    return []
